@@ -523,3 +523,231 @@ Definition c11_view (c : c11case) :=
                    ps_raised (fst xe), ps_nofuel (fst xe)))
        (combine xs (cc_exp c)),
    map (fun x => ps_state x) xs, reg).
+
+(* ====================================================================== *)
+(* The same model read METHOD BY METHOD                                     *)
+(*                                                                          *)
+(* What Stats/SimGenAgree.v compares the translated source with: the        *)
+(* notify dispatch of the Sim* classes on an event with a type, the         *)
+(* constructors as updates of the listener tables of the simulator and of   *)
+(* the model's producer and of the model's dictionary, the dictionary       *)
+(* methods of DSOLModel.  [reg_body] / [fire_all] / [pinit] / [pclose]      *)
+(* above already are EventBased*.register / _fire_events / initialize /     *)
+(* end_observations.  SimGenAgree.v also proves that [stat_run] is this     *)
+(* reading composed ([stat_run_by_method]).                                 *)
+(* ====================================================================== *)
+
+(* event types a simulation statistic is notified with: the standard data
+   events of StatEvents, an event type of the model's own, the simulator's
+   WARMUP_EVENT and END_REPLICATION_EVENT, its other lifecycle events *)
+Inductive etype := ETData | ETWeightData | ETTimestampData | ETWarmup | ETEndRepl | ETUser (n : nat) | ETSim (n : nat).
+
+Definition etype_eqb (a b : etype) : bool :=
+  match a, b with
+  | ETData, ETData | ETWeightData, ETWeightData | ETTimestampData, ETTimestampData
+  | ETWarmup, ETWarmup | ETEndRepl, ETEndRepl => true
+  | ETUser n, ETUser m => Nat.eqb n m
+  | ETSim n, ETSim m => Nat.eqb n m
+  | _, _ => false
+  end.
+
+(* a set of event types (self._event_types), insertion order kept *)
+Definition et_in (e : etype) (s : list etype) : bool := existsb (etype_eqb e) s.
+Definition set_add (e : etype) (s : list etype) : list etype := if et_in e s then s else s ++ [e].
+
+(* the data event each kind of statistic is built for *)
+Definition std_type (k : skind) : etype :=
+  match k with
+  | KCounter | KTally => ETData
+  | KWeighted => ETWeightData
+  | KPersistent => ETTimestampData
+  end.
+
+(* the listeners of a producer: (event type, listener) in subscription order;
+   add_listener ignores a listener that is already there *)
+Definition ltable := list (etype * nat).
+Definition sub_mem (e : etype) (l : nat) (t : ltable) : bool :=
+  existsb (fun p => etype_eqb (fst p) e && Nat.eqb (snd p) l) t.
+Definition add_sub (e : etype) (l : nat) (t : ltable) : ltable :=
+  if sub_mem e l t then t else t ++ [(e, l)].
+Definition subs_of (t : ltable) (e : etype) : list nat :=
+  map snd (filter (fun p => etype_eqb (fst p) e) t).
+
+(* constructor arguments, as far as the constructors look at them *)
+Inductive pykey := KStr (n : nat) | KNotStr.
+Inductive pynm := NmStr | NmOther.
+Inductive pysim := SimObj (has_model : bool) | NotSim.
+Inductive pyprod := ProdObj | ProdNone | ProdOther.
+Inductive pyetarg := EtObj (e : etype) | EtNone | EtOther.
+Inductive pystat := StatObj (sid : nat) | NotStat.
+
+(* what construct_model has built so far -- the simulator's listeners, the
+   listeners of the model's producer, the model's dictionary -- and the
+   attributes of the statistic under construction *)
+Record cobj := mkCo {
+  co_sim : ltable;
+  co_prod : ltable;
+  co_dict : registry;
+  co_types : list etype;          (* _event_types *)
+  co_key : option nat;            (* _key *)
+  co_plain : option skind         (* the ordinary statistic's constructor has run *)
+}.
+Inductive cexn := CTypeError | CDSOLError | CKeyError.
+Inductive cres := COk (c : cobj) | CExn (k : cexn) (c : cobj).
+
+Definition co_set_dict (r : registry) (c : cobj) : cobj :=
+  mkCo (co_sim c) (co_prod c) r (co_types c) (co_key c) (co_plain c).
+
+(* DSOLModel.add_output_statistic / get_output_statistic *)
+Inductive dres := DOk (r : registry) | DExn (k : cexn) (r : registry).
+Definition m_add_output_statistic (r : registry) (k : nat) (st : pystat) : dres :=
+  match reg_get k r with
+  | Some _ => DExn CDSOLError r
+  | None => match st with
+            | StatObj sid => match reg_add k sid r with Some r' => DOk r' | None => DExn CDSOLError r end
+            | NotStat => DExn CTypeError r
+            end
+  end.
+
+(* Sim*.listen_to(producer, event_type) *)
+Definition m_listen_to (sid : nat) (pr : pyprod) (et : pyetarg) (c : cobj) : cres :=
+  match pr, et with
+  | ProdObj, EtObj e =>
+      COk (mkCo (co_sim c) (add_sub e sid (co_prod c)) (co_dict c) (set_add e (co_types c)) (co_key c) (co_plain c))
+  | _, _ => CExn CTypeError c
+  end.
+
+(* Sim*(key, name, simulator, producer=.., event_type=..) *)
+Definition m_ctor (k : skind) (sid : nat) (key : pykey) (nm : pynm) (sm : pysim) (pr : pyprod) (et : pyetarg)
+           (c : cobj) : cres :=
+  match key, sm, nm with
+  | KStr n, SimObj has_model, NmStr =>
+      let s1 := add_sub ETWarmup sid (co_sim c) in
+      let s2 := match k with KPersistent => add_sub ETEndRepl sid s1 | _ => s1 end in
+      let c1 := mkCo s2 (co_prod c) (co_dict c) [std_type k] (Some n) (Some k) in
+      let listened := match pr, et with ProdNone, EtNone => COk c1 | _, _ => m_listen_to sid pr et c1 end in
+      match listened with
+      | CExn e c2 => CExn e c2
+      | COk c2 =>
+          if has_model then
+            match m_add_output_statistic (co_dict c2) n (StatObj sid) with
+            | DOk r => COk (co_set_dict r c2)
+            | DExn e r => CExn e (co_set_dict r c2)
+            end
+          else COk c2
+      end
+  | _, _, _ => CExn CTypeError c
+  end.
+
+Section ByMethod.
+  Variable N : Num.
+  Local Notation F := (F N).
+
+  (* an event as notify sees it: type, content, time stamp of a TimedEvent *)
+  Record sevent := mkEv { ne_type : etype; ne_content : payload N; ne_stamp : option F }.
+
+  (* the subscriber's reaction: registers from inside notify, at most f deep *)
+  Definition react (f : nat) (lsub : list nat) (tm : F) : pst N -> payload N -> pst N :=
+    fun y q => preg N f lsub tm false y q.
+
+  (* Sim*.notify(event): [types] = self._event_types, [tm] = float(simulator_time) *)
+  Definition snotify (k : skind) (f : nat) (lsub : list nat) (types : list etype) (tm : F)
+             (x : pst N) (e : sevent) : pst N :=
+    let ty := ne_type e in
+    let data t := reg_body N lsub t (react f lsub tm) true x (ne_content e) in
+    match k with
+    | KPersistent =>
+        if etype_eqb ty ETTimestampData then
+          match ne_stamp e with Some t => data t | None => set_raised N x end
+        else if et_in ty types then data tm
+        else if etype_eqb ty ETWarmup then pinit N f lsub tm x
+        else if etype_eqb ty ETEndRepl then pclose N (S f) lsub tm x
+        else x
+    | _ =>
+        if et_in ty types then data tm
+        else if etype_eqb ty ETWarmup then pinit N f lsub tm x
+        else x
+    end.
+
+  Variable chan_et : nat -> etype.       (* the event type of each channel of the model's producer *)
+  Variable cfg : list sdecl.
+  Variable pl : list (payload N).
+
+  (* how construct_model of the harness creates statistic [sid] declared [d] *)
+  Definition new_obj (c : cobj) : cobj := mkCo (co_sim c) (co_prod c) (co_dict c) [] None None.
+  Fixpoint listen_all (listen : nat -> pyprod -> pyetarg -> cobj -> cres) (sid : nat) (chs : list nat) (c : cobj) : cres :=
+    match chs with
+    | [] => COk c
+    | ch :: r => match listen sid ProdObj (EtObj (chan_et ch)) c with
+                 | COk c1 => listen_all listen sid r c1
+                 | err => err
+                 end
+    end.
+  Definition construct (ctor : skind -> nat -> pykey -> pynm -> pysim -> pyprod -> pyetarg -> cobj -> cres)
+             (listen : nat -> pyprod -> pyetarg -> cobj -> cres) (c : cobj) (sid : nat) (d : sdecl) : cres :=
+    match d_chans d with
+    | [] => ctor (d_kind d) sid (KStr (d_key d)) NmStr (SimObj true) ProdNone EtNone (new_obj c)
+    | ch :: r =>
+        match ctor (d_kind d) sid (KStr (d_key d)) NmStr (SimObj true) ProdObj (EtObj (chan_et ch)) (new_obj c) with
+        | COk c1 => listen_all listen sid r c1
+        | err => err
+        end
+    end.
+  Fixpoint build_from ctor listen (i : nat) (ds : list sdecl) (c : cobj) : cres :=
+    match ds with
+    | [] => COk c
+    | d :: r => match construct ctor listen c i d with
+                | COk c1 => build_from ctor listen (S i) r c1
+                | err => err
+                end
+    end.
+  Definition co_empty : cobj := mkCo [] [] [] [] None None.
+  Definition res_obj (r : cres) : cobj := match r with COk c => c | CExn _ c => c end.
+
+  (* the simulator's notification behind a log entry *)
+  Definition ev_of (o : obsrec) : sevent :=
+    match o with
+    | ObsV c v t => mkEv (chan_et c) (payload_of N pl v) (Some (tmf N t))
+    | ObsWarm t => mkEv ETWarmup (pl_default N) (Some (tmf N t))
+    | ObsEnd t => mkEv ETEndRepl (pl_default N) (Some (tmf N t))
+    end.
+  Definition otm (o : obsrec) : F :=
+    match o with ObsV _ _ t => tmf N t | ObsWarm t => tmf N t | ObsEnd t => tmf N t end.
+  (* nesting budget of the subscriber's registrations, as in [feed1] *)
+  Definition ofuel (o : obsrec) : nat := match o with ObsWarm _ => FUELP | _ => pred FUELP end.
+
+  (* one log entry: is statistic [sid] among the listeners notified (tables
+     [tb] left by construct_model; a fire on the model's producer stops at the
+     first listener that raises), then its notify ([note]) *)
+  Definition feed1_by (note : skind -> nat -> list nat -> list etype -> F -> pst N -> sevent -> pst N)
+             (tb : cobj) (types : list etype) (sid : nat) (d : sdecl) (x : pst N) (o : obsrec) : pst N :=
+    if ps_raised x then x else
+    let e := ev_of o in
+    let x1 := note (d_kind d) (ofuel o) (d_lsub d) types (otm o) x e in
+    match o with
+    | ObsV _ _ _ =>
+        if memn sid (recipients N cfg (subs_of (co_prod tb) (ne_type e)) (ne_content e)) then
+          if bad_for N (d_kind d) (ne_content e)
+          then mkPst (ps_state x1) (ps_q x1) (ps_tr x1) (ps_regs x1) (ps_raised x) (ps_nofuel x1)
+          else x1
+        else x
+    | _ => if sub_mem (ne_type e) sid (co_sim tb) then x1 else x
+    end.
+
+  Definition stat_run_by ctor listen note (sid : nat) (d : sdecl) (log : list obsrec) : pst N :=
+    let tb := res_obj (build_from ctor listen 0 cfg co_empty) in
+    let types := co_types (res_obj (construct ctor listen co_empty sid d)) in
+    fold_left (feed1_by note tb types sid d) log (pst0 N pl d).
+
+  (* Simulator.initialize, as far as the model's statistics go:
+     model.output_statistics().clear(), then model.construct_model() *)
+  Definition m_initialize_model (construct_model : registry -> cres) (before : registry) : cres :=
+    construct_model [].
+  Definition construct_model_by ctor listen (r : registry) : cres :=
+    build_from ctor listen 0 cfg (co_set_dict r co_empty).
+End ByMethod.
+
+Arguments mkEv {N} _ _ _.
+Arguments ne_type {N} _.
+Arguments ne_content {N} _.
+Arguments ne_stamp {N} _.
